@@ -18,13 +18,13 @@ Local Open Scope list_scope.
     operation of the call had been applied yet) as of before it - hence it includes every update
     reported persisted ([before] is the state after all completed calls). *)
 Theorem C19_mup_crash_consistent :
-  forall (St Up : Type) (apply : St -> Up -> St) (uid : Up -> Z) (maxp m : Z),
+  forall (St Up : Type) (apply : St -> Up -> St) (uid : Up -> Z) (refuses : St -> Up -> bool) (maxp m : Z),
   0 <= maxp ->
   forall mon0 cs c before after k gone,
-  hist_ok St Up apply uid m mon0 cs before -> call_ok St Up apply uid m before c after ->
+  hist_ok St Up apply uid refuses m mon0 cs before -> call_ok St Up apply uid refuses m before c after ->
   let s := crash_state St Up uid maxp (CNew m mon0 :: cs) c k in
-  read_with_updates St Up apply uid (view mkey_eqb s gone) m = ROk after \/
-  (k = 0%nat /\ read_with_updates St Up apply uid (view mkey_eqb s gone) m = ROk before).
+  read_with_updates St Up apply uid refuses (view mkey_eqb s gone) m = ROk after \/
+  (k = 0%nat /\ read_with_updates St Up apply uid refuses (view mkey_eqb s gone) m = ROk before).
 Proof. intros; eapply crash_consistent; eauto. Qed.
 
 (** Clean-up never deletes what recovery needs: (a) the in-range clean-up of
@@ -44,20 +44,40 @@ Theorem C19_cleanup_safe :
      In o (cleanup_stale_ops St Up st lazy) ->
      exists m' i sent (mon : monitor St), o = SRemove (KUpd m' i) lazy /\
        kv_get mkey_eqb st (KMon m') = Some (VMon sent mon) /\ i <= mid mon).
-Proof. intros St Up uid maxp. exact (cleanup_safe St Up (fun s _ => s) uid maxp). Qed.
+Proof. intros St Up uid maxp. exact (cleanup_safe St Up (fun s _ => s) uid (fun _ _ => false) maxp). Qed.
+
+(** A refused update is never stored as an incremental update: after every history (in which ChainMonitor
+    hands a refused - but state-changing - update to the persister as a FULL monitor persist, [c_refused])
+    the incremental updates found above the stored monitor are exactly the pending ones, consecutive,
+    and each re-applies successfully to the monitor obtained so far ([refuses ... = false]): replaying
+    the store never meets an update that [update_monitor] rejects. *)
+Theorem C19_stored_updates_reapply :
+  forall (St Up : Type) (apply : St -> Up -> St) (uid : Up -> Z) (refuses : St -> Up -> bool) (maxp m : Z),
+  0 <= maxp ->
+  forall mon0 cs fin,
+  hist_ok St Up apply uid refuses m mon0 cs fin ->
+  let s := run St Up uid maxp {| durable := []; limbo := [] |} (CNew m mon0 :: cs) in
+  exists sent base pend,
+    kv_get mkey_eqb (durable s) (KMon m) = Some (VMon sent base) /\
+    mem St Up apply uid base pend = fin /\ chain St Up apply uid base pend /\
+    (forall u, In u pend -> kv_get mkey_eqb (durable s) (KUpd m (uid u)) = Some (VUpd u)) /\
+    (forall i v, kv_get mkey_eqb (durable s) (KUpd m i) = Some v -> mid base < i -> exists u, In u pend /\ uid u = i) /\
+    (forall c u, nth_error pend c = Some u ->
+       refuses (mst (mem St Up apply uid base (firstn c pend))) u = false).
+Proof. intros; eapply stored_updates_reapply; eauto. Qed.
 
 (** Asynchronous store, hypothesis stated: the issued operations become durable in issue order (the
     crash state is the result of a prefix of them).  Then recovery returns one of the in-memory
     monitors reached along the history. *)
 Theorem C19_mup_async_inorder :
-  forall (St Up : Type) (apply : St -> Up -> St) (uid : Up -> Z) (maxp m : Z),
+  forall (St Up : Type) (apply : St -> Up -> St) (uid : Up -> Z) (refuses : St -> Up -> bool) (maxp m : Z),
   0 <= maxp ->
   forall mon0 cs fin k gone,
-  hist_ok St Up apply uid m mon0 cs fin -> (1 <= k)%nat ->
+  hist_ok St Up apply uid refuses m mon0 cs fin -> (1 <= k)%nat ->
   let s := apply_sops mkey_eqb empty_state
              (firstn k (issued St Up uid maxp empty_state (CNew m mon0 :: cs))) in
-  exists r, read_with_updates St Up apply uid (view mkey_eqb s gone) m = ROk r /\
-            mem_reached St Up apply uid m mon0 cs r.
+  exists r, read_with_updates St Up apply uid refuses (view mkey_eqb s gone) m = ROk r /\
+            mem_reached St Up apply uid refuses m mon0 cs r.
 Proof. intros; eapply async_inorder; eauto. Qed.
 
 (** Asynchronous store in general (the fix for finding H1 makes recovery stop at the first missing
@@ -67,13 +87,13 @@ Proof. intros; eapply async_inorder; eauto. Qed.
     completed entirely (all that can have been reported persisted), the recovered monitor is at least
     as recent as the in-memory monitor [fin1] after that prefix. *)
 Theorem C19_mup_async :
-  forall (St Up : Type) (apply : St -> Up -> St) (uid : Up -> Z) (maxp m : Z),
+  forall (St Up : Type) (apply : St -> Up -> St) (uid : Up -> Z) (refuses : St -> Up -> bool) (maxp m : Z),
   0 <= maxp ->
   forall mon0 cs1 cs2 fin1 fin sels1 sels2 gone,
-  hist_ok St Up apply uid m mon0 cs1 fin1 -> hist_ok St Up apply uid m fin1 cs2 fin ->
+  hist_ok St Up apply uid refuses m mon0 cs1 fin1 -> hist_ok St Up apply uid refuses m fin1 cs2 fin ->
   List.length sels1 = List.length cs1 -> Forall (fun x => x <> SelNone) sels1 ->
   let s := async_run St Up uid maxp empty_state (CNew m mon0 :: cs1 ++ cs2) (SelWrite [] :: sels1 ++ sels2) in
-  exists r, read_with_updates St Up apply uid (view mkey_eqb s gone) m = ROk r /\
+  exists r, read_with_updates St Up apply uid refuses (view mkey_eqb s gone) m = ROk r /\
             In r (mems St Up mon0 (cs1 ++ cs2)) /\ mid fin1 <= mid r.
 Proof. intros; eapply async_reported; eauto. Qed.
 
@@ -86,14 +106,14 @@ Proof. intros; eapply async_reported; eauto. Qed.
     of the history at least as recent as [fin1], the monitor after the last completed call (everything
     reported persisted). *)
 Theorem C19_mup_faulty_crash_consistent :
-  forall (St Up : Type) (apply : St -> Up -> St) (uid : Up -> Z) (maxp m : Z),
+  forall (St Up : Type) (apply : St -> Up -> St) (uid : Up -> Z) (refuses : St -> Up -> bool) (maxp m : Z),
   0 <= maxp ->
   forall mon0 cs1 fin1 c after sels1 x k gone,
-  hist_ok St Up apply uid m mon0 cs1 fin1 -> call_ok St Up apply uid m fin1 c after ->
+  hist_ok St Up apply uid refuses m mon0 cs1 fin1 -> call_ok St Up apply uid refuses m fin1 c after ->
   List.length sels1 = List.length cs1 -> Forall (fun y => y <> SelNone) sels1 ->
   let s1 := async_run St Up uid maxp empty_state (CNew m mon0 :: cs1) (SelWrite [] :: sels1) in
   let s := apply_sops mkey_eqb s1 (firstn k (sel_ops St Up (call_ops St Up uid maxp s1 c) x)) in
-  exists r, read_with_updates St Up apply uid (view mkey_eqb s gone) m = ROk r /\
+  exists r, read_with_updates St Up apply uid refuses (view mkey_eqb s gone) m = ROk r /\
             In r (mems St Up mon0 (cs1 ++ [c])) /\ mid fin1 <= mid r.
 Proof. intros; eapply faulty_crash_consistent; eauto. Qed.
 
@@ -108,12 +128,13 @@ Proof. exact no_cleanup_after_failed_write. Qed.
     of the FIXED code recovers monitor 0; before the fix [update_monitor] panicked here. *)
 Definition ex_apply (st : list Z) (u : Z) : list Z := u :: st.
 Definition ex_uid (u : Z) : Z := u.
+Definition ex_refuses (st : list Z) (u : Z) : bool := u =? 3.   (* update 3 is one the monitor refuses *)
 Definition ex_mon (i : Z) (st : list Z) : monitor (list Z) := {| mid := i; mst := st |}.
 Definition ex_hist : list (call (list Z) Z) :=
   [CNew 7 (ex_mon 0 []); CUpdate 7 (Some 1) (ex_mon 1 [1]); CUpdate 7 (Some 2) (ex_mon 2 [2; 1])].
 
 Example C19_ex_async_gap :
-  read_with_updates (list Z) Z ex_apply ex_uid
+  read_with_updates (list Z) Z ex_apply ex_uid ex_refuses
     (view mkey_eqb (async_run (list Z) Z ex_uid 5 empty_state ex_hist [SelWrite []; SelNone; SelWrite []]) []) 7
   = ROk (ex_mon 0 []).
 Proof. vm_compute. reflexivity. Qed.
@@ -123,7 +144,10 @@ Proof. vm_compute. reflexivity. Qed.
     file system is an atomic map: tmp-file + rename assumed atomic).  For every set of operations and
     EVERY schedule of their steps in which the issue phases (version fetch + lock-entry acquisition) of
     operations on one key do not overlap - the KVStore contract's "in the order they were issued" -:
-    once all operations are done, each key holds the effect of the LAST ISSUED write/remove on it, the
+    once all operations are done, each key holds the effect of the LAST ISSUED write/remove on it AMONG
+    THOSE WHOSE CALLBACK DID NOT FAIL ([is_eff]; a [FFail] operation - rename/unlink/fsync error inside
+    the lock - takes a version but must not record it, so it can never make an earlier-issued successful
+    operation look stale), the
     lock table is empty, and at every intermediate step the file holds the effect of an issued
     operation whose version never decreases (clean-up of the lock table never resurrects an older
     version). *)
@@ -133,10 +157,10 @@ Theorem C19_versioned_writes_in_issue_order : forall ops sched st,
   (all_done ops st = true ->
    forall k, f_locks st k = None /\
      ((f_fs st k = None /\
-       forall i, (i < List.length ops)%nat -> is_mut (opn ops i) = true -> f_key (opn ops i) <> k) \/
-      exists i v, (i < List.length ops)%nat /\ is_mut (opn ops i) = true /\ f_key (opn ops i) = k /\
+       forall i, (i < List.length ops)%nat -> is_eff (opn ops i) = true -> f_key (opn ops i) <> k) \/
+      exists i v, (i < List.length ops)%nat /\ is_eff (opn ops i) = true /\ f_key (opn ops i) = k /\
                   f_phase st i = PDone v /\ f_fs st k = effect (opn ops i) /\
-                  forall j w, is_mut (opn ops j) = true -> f_key (opn ops j) = k ->
+                  forall j w, is_eff (opn ops j) = true -> f_key (opn ops j) = k ->
                               f_phase st j = PDone w -> w <= v)).
 Proof. exact versioned_writes_in_issue_order. Qed.
 
@@ -162,12 +186,12 @@ Proof. vm_compute. repeat split; reflexivity. Qed.
 
 (** Non-vacuity *)
 Example C19_ex_hist_ok :
-  hist_ok (list Z) Z ex_apply ex_uid 7 (ex_mon 0 [])
+  hist_ok (list Z) Z ex_apply ex_uid ex_refuses 7 (ex_mon 0 [])
     [CUpdate 7 (Some 1) (ex_mon 1 [1]); CUpdate 7 (Some 2) (ex_mon 2 [2; 1]); CCleanup true []; CUpdate 7 None (ex_mon 2 [2; 1])]
     (ex_mon 2 [2; 1]).
 Proof.
-  econstructor; [apply (c_update _ _ ex_apply ex_uid 7 (ex_mon 0 []) 1); [reflexivity | vm_compute; reflexivity]|].
-  econstructor; [apply (c_update _ _ ex_apply ex_uid 7 (ex_mon 1 [1]) 2); [reflexivity | vm_compute; reflexivity]|].
+  econstructor; [apply (c_update _ _ ex_apply ex_uid ex_refuses 7 (ex_mon 0 []) 1); [reflexivity | vm_compute; reflexivity | reflexivity]|].
+  econstructor; [apply (c_update _ _ ex_apply ex_uid ex_refuses 7 (ex_mon 1 [1]) 2); [reflexivity | vm_compute; reflexivity | reflexivity]|].
   econstructor; [apply c_cleanup|]. econstructor; [apply c_full|]. constructor.
 Qed.
 
@@ -175,8 +199,36 @@ Qed.
     monitor + lazy removal of 0..2); a crash after the monitor write with only the removal of update 1
     applied recovers monitor 2 *)
 Example C19_ex_crash :
-  read_with_updates (list Z) Z ex_apply ex_uid
+  read_with_updates (list Z) Z ex_apply ex_uid ex_refuses
     (view mkey_eqb (crash_state (list Z) Z ex_uid 2 [CNew 7 (ex_mon 0 []); CUpdate 7 (Some 1) (ex_mon 1 [1])]
                       (CUpdate 7 (Some 2) (ex_mon 2 [2; 1])) 3) [KUpd 7 1]) 7
   = ROk (ex_mon 2 [2; 1]).
 Proof. vm_compute. reflexivity. Qed.
+
+(** a later-issued operation that FAILS inside the lock and runs first does not cancel the earlier-issued
+    write: the write still takes effect (the failing operation recorded no version) *)
+Example C19_ex_fs_fail :
+  let ops := [ {| f_key := 5; f_kind := FWrite 10 |}; {| f_key := 5; f_kind := FFail |} ] in
+  match frun ops [LFetch 0; LRef 0; LFetch 1; LRef 1; LExec 1; LClean 1; LExec 0; LClean 0] with
+  | Some st => all_done ops st = true /\ f_fs st 5 = Some 10 /\ f_locks st 5 = None
+  | None => False
+  end.
+Proof. vm_compute. repeat split; reflexivity. Qed.
+
+(** update 3 is refused by the monitor: ChainMonitor persists the full monitor; recovery returns it, and
+    the store holds no update 3 *)
+Example C19_ex_refused :
+  hist_ok (list Z) Z ex_apply ex_uid ex_refuses 7 (ex_mon 0 [])
+    [CUpdate 7 (Some 1) (ex_mon 1 [1]); CUpdate 7 (Some 2) (ex_mon 2 [2; 1]); CUpdate 7 None (ex_mon 3 [3; 2; 1])]
+    (ex_mon 3 [3; 2; 1]) /\
+  read_with_updates (list Z) Z ex_apply ex_uid ex_refuses
+    (view mkey_eqb (crash_state (list Z) Z ex_uid 5
+       [CNew 7 (ex_mon 0 []); CUpdate 7 (Some 1) (ex_mon 1 [1]); CUpdate 7 (Some 2) (ex_mon 2 [2; 1])]
+       (CUpdate 7 None (ex_mon 3 [3; 2; 1])) 1) []) 7 = ROk (ex_mon 3 [3; 2; 1]).
+Proof.
+  split; [|vm_compute; reflexivity].
+  econstructor; [apply (c_update _ _ ex_apply ex_uid ex_refuses 7 (ex_mon 0 []) 1); [reflexivity | vm_compute; reflexivity | reflexivity]|].
+  econstructor; [apply (c_update _ _ ex_apply ex_uid ex_refuses 7 (ex_mon 1 [1]) 2); [reflexivity | vm_compute; reflexivity | reflexivity]|].
+  econstructor; [apply (c_refused _ _ ex_apply ex_uid ex_refuses 7 (ex_mon 2 [2; 1]) 3); [reflexivity | vm_compute; reflexivity | reflexivity]|].
+  constructor.
+Qed.
